@@ -109,18 +109,21 @@ Definition agree_build (strip check_first proxy_fix : bool) (copy : bool) (w : w
            (o : obs_build) : bool :=
   match o with
   | OBuilt wo mo vo order =>
-    match build strip check_first proxy_fix (topo_obs (match order with Some l => Some l | None => None end)) w rn rv with
+    match build strip check_first proxy_fix (topo_obs order) copy w rn rv with
     | (wm, Ok m) =>
-      let wm' := if copy then pop wm m else wm in
       let k := List.length (w_nodes w) in
-      list_eqb (pair_eqb String.eqb Bool.eqb) (old_part wm' k) (old_part wo k)
-      && slist_eqb (old_vnames wm' (List.length (w_vars w))) (old_vnames wo (List.length (w_vars w)))
-      && perm_eqb nsum_eqb (summary wm (m_nodes m)) (summary wo mo)
+      list_eqb (pair_eqb String.eqb Bool.eqb) (old_part wm k) (old_part wo k)
+      && slist_eqb (old_vnames wm (List.length (w_vars w))) (old_vnames wo (List.length (w_vars w)))
+      (* nodes that belonged to a live model before the build are exactly as they were *)
+      && list_eqb pnode_eqb (live_part w wm) (live_part w wo)
+      && list_eqb pnode_eqb (live_part w wm) (live_part w w)
+      (* the model's nodes: the result world, or (copy=True) the same graph wired on its own = the copies *)
+      && perm_eqb nsum_eqb (summary (copied_world copy wm m) (m_nodes m)) (summary wo mo)
       && perm_eqb vsum_eqb (map (vsummary1 wm) (m_vars m)) (map (vsummary1 wo) vo)
     | (_, Err _) => false
     end
   | ORejected wo wit =>
-    match build strip check_first proxy_fix (fun _ _ => None) w rn rv with
+    match build strip check_first proxy_fix (fun _ _ => None) copy w rn rv with
     | (wm, Ok _) => false
     | (wm, Err e) =>
       list_eqb pnode_eqb (live_part w wm) (live_part w wo)
@@ -145,7 +148,9 @@ Definition agree_pop (w : world) (mo : list nid) (vo : list vid) (wo : world) (k
 Definition agree_mutate (proxy_fix : bool) (w : world) (t : target) (mu : mutation) (rejected : bool) (wo : world) : bool :=
   match mutate proxy_fix w t mu with
   | (wm, Err _) => rejected && world_eqb wm wo && world_eqb w wo
-  | (wm, Ok _) => negb rejected && match mu with MOther => true | _ => world_eqb wm wo end
+  | (wm, Ok _) => negb rejected && match mu with
+                                   | MOther | MValueNode _ | MDistNode _ => true
+                                   | _ => world_eqb wm wo end
   end.
 
 Inductive step :=
